@@ -76,11 +76,9 @@ let show_store (ds : delivery list) : string =
   if boxes = [] then "-" else
   String.concat "," (List.map (fun (n, ms) -> Mlutil.hex n ^ "=" ^ ms) boxes)
 
-let () =
-  Mlutil.iter_lines (fun line ->
-    let (kind, ins, outs) = Mlutil.split_case line in
-    match kind, ins with
-    | "smtp", [naming; maxr; maxb; da; acc; rej; ds; sto; dis; rejo; store; stream] ->
+let handle_smtp (ins : string list) (outs : string list) : bool =
+  match ins with
+  | [naming; maxr; maxb; da; acc; rej; ds; sto; dis; rejo; store; stream] ->
         let f = str_of_field in
         let pol = load_cfg (bool_of_field da) (f acc) (f rej) (bool_of_field ds) (f sto) (f dis) (f rejo) in
         let c = { pol = pol; max_rcpt = z_of_int (int_of_string maxr); max_bytes = z_of_int (int_of_string maxb);
@@ -101,7 +99,12 @@ let () =
              if List.length (List.concat (List.map snd dlg)) <> List.length (parse_replies replies)
              then v := "C03:reply-count" :: !v;
              if status <> "ok" then v := "C03:session-error" :: !v;
-             if show_store ent <> dump then v := "C01:store-differs-from-what-the-dialogue-entitles" :: !v;
+             if show_store ent <> dump then begin
+               v := "C01:store-differs-from-what-the-dialogue-entitles" :: !v;
+               v := "C03:partial-phantom-or-misrouted-message" :: !v;
+               v := "C05:session-store-or-accept-rule" :: !v;
+               v := "C06:store-differs-from-what-the-dialogue-entitles" :: !v
+             end;
              (* size rule on the implementation's dialogue: an oversize block must be refused and
                 must leave nothing behind (the store clause is covered by the entitlement check) *)
              let size_viol = List.exists (fun (it, r) ->
@@ -112,8 +115,32 @@ let () =
                    int_of_z n > int_of_string maxb && int_of_z (first_code r) = 250
                | _ -> false) dlg in
              if size_viol then v := "C06:oversize-accepted" :: !v;
+             let within_refused = List.exists (fun (it, r) ->
+               match it with
+               | B (PBlock (body, _, _)) ->
+                   List.length body <= int_of_string maxb && int_of_z (first_code r) = 552
+               | _ -> false) dlg in
+             if within_refused then v := "C06:within-limit-refused" :: !v;
+             (* C05: a RCPT answered 250 beyond the recipient limit *)
+             let over = ref false in
+             let n = ref 0 in
+             List.iter (fun (it, r) ->
+               let ok = int_of_z (first_code r) = 250 in
+               match it with
+               | L (Mail (_, _)) -> if ok then n := 0
+               | L (Rcpt (_, _)) -> if ok then begin incr n; if !n > max 0 (int_of_string maxr) then over := true end
+               | L Rset | L (Helo _) | L (Ehlo _) -> if ok then n := 0
+               | B _ -> n := 0
+               | _ -> ()) dlg;
+             if !over then v := "C05:recipient-limit-exceeded" :: !v;
              let mine = List.filter (fun s -> String.length s > 3 && String.sub s 0 3 = pid) !v in
              let verdict = if mine = [] then "ok" else "fail:" ^ String.concat ";" (List.rev mine) in
              Mlutil.print_model [m_replies; mt; rt; ht; m_store; "ok"] verdict
-         | _ -> Mlutil.print_model ["NO-OBSERVATION"] "fail:no-observation")
-    | _ -> Mlutil.print_model ["UNKNOWN-KIND"] "ok")
+         | _ -> Mlutil.print_model ["NO-OBSERVATION"] "fail:no-observation"); true
+  | _ -> false
+
+let () =
+  Mlutil.iter_lines (fun line ->
+    let (kind, ins, outs) = Mlutil.split_case line in
+    if kind = "smtp" && handle_smtp ins outs then ()
+    else Mlutil.print_model ["UNKNOWN-KIND"] "ok")
